@@ -421,7 +421,7 @@ func blockAt(served []byte, i int) []byte {
 
 // decide walks the served bytes with the rule and the operation's oracles. It
 // returns the modelled verdict, or a description of the disagreement.
-func decide(ru rule, o *outcome, served []byte) (*verdict, string) {
+func decide(ru rule, o *outcome, served []byte, checkAccepted bool) (*verdict, string) {
 	v := &verdict{}
 	for i := 0; ; i++ {
 		b := blockAt(served, i)
@@ -447,6 +447,10 @@ func decide(ru rule, o *outcome, served []byte) (*verdict, string) {
 			why = o.match(val)
 		}
 		if why == "" {
+			if checkAccepted && o.reject != nil && o.reject(val) {
+				return nil, fmt.Sprintf("the output was produced from block #%d = %064x, which the algorithm has to discard (signature: r=0, r+k=n or s=0; "+
+					"encryption/encapsulation: all-zero KDF output) and replace by the next block", i, val)
+			}
 			v.k, v.index, v.consumed = val, i, 32*(i+1)
 			return v, ""
 		}
